@@ -42,17 +42,31 @@ type c03Op struct {
 	Runtime  bool             `json:"runtime,omitempty"`
 	CheckPar bool             `json:"checkParent,omitempty"`
 	Scale    bool             `json:"scale,omitempty"`
+	Dims     []string         `json:"dims,omitempty"` // dimensions the quota declares (nil = all)
 }
 
-var c03Dims = []string{"cpu", "memory"}
+var c03Dims = []string{"cpu", "memory", "gpu"}
 
-func c03RL(m map[string]int64) corev1.ResourceList {
+func c03Name(d string) corev1.ResourceName {
+	if d == "gpu" {
+		return "nvidia.com/gpu"
+	}
+	return corev1.ResourceName(d)
+}
+
+// resource list over the given dimensions only (nil = all)
+func c03RLd(m map[string]int64, dims []string) corev1.ResourceList {
+	if dims == nil {
+		dims = c03Dims
+	}
 	rl := corev1.ResourceList{}
-	for _, d := range c03Dims {
-		rl[corev1.ResourceName(d)] = *resource.NewQuantity(m[d], resource.DecimalSI)
+	for _, d := range dims {
+		rl[c03Name(d)] = *resource.NewQuantity(m[d], resource.DecimalSI)
 	}
 	return rl
 }
+
+func c03RL(m map[string]int64) corev1.ResourceList { return c03RLd(m, nil) }
 
 func c03V(m map[string]int64) map[string]int64 {
 	out := map[string]int64{}
@@ -66,7 +80,7 @@ func c03V(m map[string]int64) map[string]int64 {
 func c03Units(rl corev1.ResourceList) map[string]int64 {
 	out := map[string]int64{}
 	for _, d := range c03Dims {
-		q := rl[corev1.ResourceName(d)]
+		q := rl[c03Name(d)]
 		if d == "cpu" {
 			out[d] = q.MilliValue()
 		} else {
@@ -79,7 +93,7 @@ func c03Units(rl corev1.ResourceList) map[string]int64 {
 func c03Quota(o c03Op) *v1alpha1.ElasticQuota {
 	q := &v1alpha1.ElasticQuota{
 		ObjectMeta: metav1.ObjectMeta{Name: o.Name, Namespace: "ns", Annotations: map[string]string{}, Labels: map[string]string{}},
-		Spec:       v1alpha1.ElasticQuotaSpec{Max: c03RL(o.Max), Min: c03RL(o.Min)},
+		Spec:       v1alpha1.ElasticQuotaSpec{Max: c03RLd(o.Max, o.Dims), Min: c03RLd(o.Min, o.Dims)},
 	}
 	q.Labels[extension.LabelQuotaParent] = o.Parent
 	q.Labels[extension.LabelAllowLentResource] = map[bool]string{true: "true", false: "false"}[o.Lent]
@@ -162,6 +176,11 @@ func c03Run(t *testing.T, rec *vu.Recorder, script []c03Op) {
 			}
 			quotas[o.Name] = q
 			ev["name"], ev["parent"], ev["isParent"], ev["lent"], ev["min"], ev["max"] = o.Name, o.Parent, o.IsParent, o.Lent, c03V(o.Min), c03V(o.Max)
+			dims := o.Dims
+			if dims == nil {
+				dims = c03Dims
+			}
+			ev["dims"] = dims
 		case "podAdd":
 			p := c03Pod(o.Pod, o.Q, o.Req, o.Np, false)
 			pods[o.Pod] = p
@@ -212,9 +231,16 @@ func c03Run(t *testing.T, rec *vu.Recorder, script []c03Op) {
 func c03Random(rng *rand.Rand, n int, runtime, checkParent, scale bool) []c03Op {
 	out := []c03Op{{Op: "reset", Runtime: runtime, CheckPar: checkParent, Scale: scale}}
 	vec := func(max int64) map[string]int64 {
-		return map[string]int64{"cpu": rng.Int63n(max + 1), "memory": rng.Int63n(max + 1)}
+		return map[string]int64{"cpu": rng.Int63n(max + 1), "memory": rng.Int63n(max + 1), "gpu": rng.Int63n(max/2 + 1)}
 	}
-	out = append(out, c03Op{Op: "node", Delta: map[string]int64{"cpu": int64(4 + rng.Intn(20)), "memory": int64(4 + rng.Intn(20))}})
+	mask := func(m map[string]int64, dims []string) map[string]int64 {
+		out := map[string]int64{"cpu": 0, "memory": 0, "gpu": 0}
+		for _, d := range dims {
+			out[d] = m[d]
+		}
+		return out
+	}
+	out = append(out, c03Op{Op: "node", Delta: map[string]int64{"cpu": int64(4 + rng.Intn(20)), "memory": int64(4 + rng.Intn(20)), "gpu": int64(rng.Intn(8))}})
 	type qs struct {
 		op c03Op
 	}
@@ -240,12 +266,17 @@ func c03Random(rng *rand.Rand, n int, runtime, checkParent, scale bool) []c03Op 
 			name := names[rng.Intn(len(names))]
 			old, live := quotas[name]
 			o := c03Op{Op: "quota", Name: name, Parent: extension.RootQuotaName, IsParent: rng.Intn(3) == 0, Lent: rng.Intn(2) == 0, Max: vec(12)}
-			o.Min = map[string]int64{"cpu": rng.Int63n(o.Max["cpu"] + 1), "memory": rng.Int63n(o.Max["memory"] + 1)}
+			o.Min = map[string]int64{"cpu": rng.Int63n(o.Max["cpu"] + 1), "memory": rng.Int63n(o.Max["memory"] + 1), "gpu": rng.Int63n(o.Max["gpu"] + 1)}
 			if rng.Intn(2) == 0 {
-				o.Min = map[string]int64{"cpu": 0, "memory": 0}
+				o.Min = map[string]int64{"cpu": 0, "memory": 0, "gpu": 0}
+			}
+			// the dimensions a group declares: fixed per top-level tree (the webhook makes them agree along a tree)
+			o.Dims = []string{"cpu", "memory"}
+			if rng.Intn(2) == 0 {
+				o.Dims = []string{"cpu", "memory", "gpu"}
 			}
 			if live {
-				o.Parent, o.IsParent = old.Parent, old.IsParent // no re-parenting / isParent flips in the closed loop
+				o.Parent, o.IsParent, o.Dims = old.Parent, old.IsParent, old.Dims // no re-parenting / isParent flips in the closed loop
 			} else {
 				var cands []string
 				for _, q := range sortedQ() {
@@ -255,8 +286,10 @@ func c03Random(rng *rand.Rand, n int, runtime, checkParent, scale bool) []c03Op 
 				}
 				if len(cands) > 0 && rng.Intn(2) == 0 {
 					o.Parent = cands[rng.Intn(len(cands))]
+					o.Dims = quotas[o.Parent].Dims
 				}
 			}
+			o.Min, o.Max = mask(o.Min, o.Dims), mask(o.Max, o.Dims)
 			quotas[name] = o
 			out = append(out, o)
 		case k == 3:
